@@ -2200,11 +2200,20 @@ func (ts *TokenStore) revokeInternal(ctx context.Context, saltedID string, skipO
 			lock := locksutil.LockForKey(ts.tokenLocks, entry.ID)
 			lock.Lock()
 
-			entry.Parent = ""
-			err = ts.store(childCtx, entry)
+			// The lock can only be taken once the ID is known: read the entry
+			// again so that a use counted in between is not written back.
+			entry, err = ts.lookupInternal(childCtx, child, true, true)
 			if err != nil {
 				lock.Unlock()
-				return fmt.Errorf("failed to update child token: %w", err)
+				return fmt.Errorf("failed to get child token: %w", err)
+			}
+			if entry != nil {
+				entry.Parent = ""
+				err = ts.store(childCtx, entry)
+				if err != nil {
+					lock.Unlock()
+					return fmt.Errorf("failed to update child token: %w", err)
+				}
 			}
 			lock.Unlock()
 
@@ -2515,10 +2524,15 @@ func (ts *TokenStore) handleTidy(ctx context.Context, req *logical.Request, data
 						lock := locksutil.LockForKey(ts.tokenLocks, te.ID)
 						lock.Lock()
 
-						te.Parent = ""
-						err = ts.store(quitCtx, te)
-						if err != nil {
-							tidyErrors = multierror.Append(tidyErrors, fmt.Errorf("failed to convert child token into an orphan token: %w", err))
+						// Read the entry again now that the lock is held so that
+						// a use counted in between is not written back.
+						te, _ = ts.lookupInternal(quitCtx, child, true, true)
+						if te != nil {
+							te.Parent = ""
+							err = ts.store(quitCtx, te)
+							if err != nil {
+								tidyErrors = multierror.Append(tidyErrors, fmt.Errorf("failed to convert child token into an orphan token: %w", err))
+							}
 						}
 						lock.Unlock()
 						continue
